@@ -209,7 +209,7 @@ pub async fn restart_node_service(
             network_id: current_node_clone.network_id,
             node_ip: current_node_clone.node_ip,
             node_port: None,
-            owner: None,
+            owner: current_node_clone.owner.clone(),
             peers_args: current_node_clone.peers_args.clone(),
             rewards_address: current_node_clone.rewards_address,
             rpc_socket_addr: current_node_clone.rpc_socket_addr,
@@ -239,7 +239,7 @@ pub async fn restart_node_service(
             node_ip: current_node_clone.node_ip,
             node_port: None,
             number: new_node_number,
-            owner: None,
+            owner: current_node_clone.owner.clone(),
             peer_id: None,
             peers_args: current_node_clone.peers_args.clone(),
             pid: None,
